@@ -1,1 +1,473 @@
-fn main() { eprintln!("not built yet"); std::process::exit(2); }
+//! C14 — ADT terrain survives build -> serialise -> parse, re-serialisation is stable, and the
+//! chunk framing / offset tables of every produced file are consistent.
+//!
+//! Bounded exhaustive exploration: every builder input with <= D deviations from a minimal and
+//! from a (version-adjusted) full baseline over the site table in `model.rs`, for every target
+//! version; every produced file (builder output and each re-serialisation round on two rebuild
+//! paths) is judged by the independent chunk walker in `walker.rs` and by content comparison.
+mod model;
+mod walker;
+
+use model::*;
+use serde_json::{json, Value};
+use std::collections::HashSet;
+use std::io::Cursor;
+use vcore::*;
+use wow_adt::{AdtBuilder, BuiltAdt, ParsedAdt, RootAdt};
+
+const ROUNDS: usize = 3;
+const MAX_FILE: usize = 40 << 20;
+
+struct Case {
+    base: &'static str,
+    devs: Vec<(usize, u8)>,
+    spec: Spec,
+}
+
+struct Main {
+    cases: Vec<Case>,
+}
+
+fn deviations(base: &Spec, ndev: usize, skip_val: &dyn Fn(usize, u8) -> bool) -> Vec<(Vec<(usize, u8)>, Spec)> {
+    // all specs that differ from `base` at exactly `ndev` sites
+    fn rec(base: &Spec, start: usize, left: usize, cur: &mut Vec<(usize, u8)>, out: &mut Vec<(Vec<(usize, u8)>, Spec)>, skip_val: &dyn Fn(usize, u8) -> bool) {
+        if left == 0 {
+            let mut s = base.clone();
+            for (site, v) in cur.iter() {
+                s.v[*site] = *v;
+            }
+            out.push((cur.clone(), s));
+            return;
+        }
+        for site in start..NSITES {
+            for v in 0..SITES[site].vals.len() as u8 {
+                if v == base.v[site] || skip_val(site, v) {
+                    continue;
+                }
+                cur.push((site, v));
+                rec(base, site + 1, left - 1, cur, out, skip_val);
+                cur.pop();
+            }
+        }
+    }
+    let mut out = vec![];
+    rec(base, 0, ndev, &mut vec![], &mut out, skip_val);
+    out
+}
+
+fn documented_refusal(s: &Spec) -> bool {
+    for (i, site) in SITES.iter().enumerate() {
+        if s.v[i] != 0 && site.full_from > 0 && i != S_MTXF && i != S_WATERFMT && s.version < site.full_from {
+            return true;
+        }
+    }
+    s.val(S_TEX) == "none" || (s.val(S_DOODADS) != "none" && s.val(S_MODELS) == "none") || (s.val(S_WMOPL) != "none" && s.val(S_WMOS) == "none")
+}
+
+impl Main {
+    fn new(tier: Tier) -> Main {
+        let (dmin, dfull) = tier.pick((2, 2), (3, 3));
+        // quick: the 256-populated-chunk value only as a single deviation
+        let quick = tier == Tier::Quick;
+        let mut cases = vec![];
+        let mut seen: HashSet<Spec> = HashSet::new();
+        for ndev in 0..=dmin.max(dfull) {
+            for (bname, dmax) in [("minimal", dmin), ("full", dfull)] {
+                if ndev > dmax {
+                    continue;
+                }
+                for version in 0..VERSIONS.len() {
+                    let base = if bname == "minimal" { Spec::minimal(version) } else { Spec::full(version) };
+                    let skip = |site: usize, v: u8| quick && ndev >= 2 && site == S_MCNK && SITES[site].vals[v as usize] == "all256";
+                    for (devs, spec) in deviations(&base, ndev, &skip) {
+                        let canon = spec.canonical();
+                        // from 3 deviations on, inputs the builder is documented to refuse are not
+                        // enumerated again (refusals are covered with <= 2 deviations)
+                        if ndev >= 3 && documented_refusal(&canon) {
+                            continue;
+                        }
+                        if seen.insert(canon.clone()) {
+                            cases.push(Case { base: bname, devs, spec: canon });
+                        }
+                    }
+                }
+            }
+        }
+        Main { cases }
+    }
+}
+
+fn err_class(s: &str) -> String {
+    let mut out = String::new();
+    let mut last_digit = false;
+    for c in s.chars().take(110) {
+        if c.is_ascii_digit() {
+            if !last_digit {
+                out.push('N');
+            }
+            last_digit = true;
+        } else {
+            out.push(c);
+            last_digit = false;
+        }
+    }
+    out
+}
+
+fn build(inp: &Input) -> Result<BuiltAdt, wow_adt::AdtError> {
+    let mut b = AdtBuilder::new().with_version(inp.version);
+    for t in &inp.textures {
+        b = b.add_texture(t.clone());
+    }
+    for m in &inp.models {
+        b = b.add_model(m.clone());
+    }
+    for w in &inp.wmos {
+        b = b.add_wmo(w.clone());
+    }
+    for p in &inp.doodads {
+        b = b.add_doodad_placement(*p);
+    }
+    for p in &inp.wmo_placements {
+        b = b.add_wmo_placement(*p);
+    }
+    if let Some(m) = &inp.mcnk {
+        for c in m {
+            b = b.add_mcnk_chunk(c.clone());
+        }
+    }
+    if let Some(x) = &inp.flight_bounds {
+        b = b.add_flight_bounds(*x);
+    }
+    if let Some(x) = &inp.water {
+        b = b.add_water_data(x.clone());
+    }
+    if let Some(x) = &inp.mtxf {
+        b = b.add_texture_flags(x.clone());
+    }
+    if let Some(x) = &inp.mamp {
+        b = b.add_texture_amplifier(*x);
+    }
+    if let Some(x) = &inp.mtxp {
+        b = b.add_texture_params(x.clone());
+    }
+    if let Some((h, bb, v, i)) = &inp.blend {
+        b = b.add_blend_mesh_headers(h.clone()).add_blend_mesh_bounds(bb.clone()).add_blend_mesh_vertices(v.clone()).add_blend_mesh_indices(i.clone());
+    }
+    b.build()
+}
+
+fn parse(bytes: &[u8]) -> Result<RootAdt, String> {
+    match wow_adt::parse_adt(&mut Cursor::new(bytes)) {
+        Ok(ParsedAdt::Root(r)) => Ok(*r),
+        Ok(other) => Err(format!("parsed as {:?}, not as a root tile", other.file_type())),
+        Err(e) => Err(e.to_string()),
+    }
+}
+
+struct Ctx<'a> {
+    r: &'a mut CaseResult,
+    seen: HashSet<String>,
+}
+impl Ctx<'_> {
+    fn viol(&mut self, s: String, d: String) {
+        if self.seen.insert(s.clone()) {
+            self.r.viol(s, d);
+        }
+    }
+    fn walk(&mut self, bytes: &[u8], stage: &str) -> walker::Report {
+        let rep = walker::inspect(bytes);
+        self.r.count("files_walked", 1);
+        self.r.count("offset_entries_checked", rep.offsets_checked);
+        self.r.count("bytes_walked", bytes.len() as u64);
+        if rep.mcin_size_conv == "data" {
+            self.r.count("files_with_mcin_size_excluding_header", 1);
+        }
+        for (s, d) in &rep.problems {
+            self.viol(s.clone(), format!("[{stage}] {d}"));
+        }
+        rep
+    }
+}
+
+fn growth_symptoms(old: &walker::Report, new: &walker::Report) -> Vec<(String, String)> {
+    let mut out = vec![];
+    for (scope, a, b) in [("top-level chunk", &old.top_bytes, &new.top_bytes), ("MCNK sub-chunk", &old.sub_bytes, &new.sub_bytes)] {
+        for (k, nb) in b.iter() {
+            let ob = a.get(k).copied().unwrap_or(0);
+            if *nb > ob {
+                let how = if ob == 0 { "appears" } else { "grows" };
+                out.push((format!("re-serialisation grows the file: {scope} {k} {how}"), format!("{k}: {ob} -> {nb} bytes")));
+            }
+        }
+    }
+    if new.mcnk_count > old.mcnk_count {
+        out.push(("re-serialisation grows the file: more MCNK chunks".into(), format!("{} -> {}", old.mcnk_count, new.mcnk_count)));
+    }
+    if out.is_empty() {
+        out.push(("re-serialisation grows the file".into(), "no chunk type grew (framing broken?)".into()));
+    }
+    out
+}
+
+fn run_spec(spec: &Spec, r: &mut CaseResult) {
+    let inp = make_input(spec);
+    let mut cx = Ctx { r, seen: HashSet::new() };
+
+    // ---- build + serialise
+    let built = match build(&inp) {
+        Ok(b) => b,
+        Err(e) => {
+            cx.r.err_return = true;
+            cx.r.outcome = format!("build refused: {}", err_class(&e.to_string()).chars().take(40).collect::<String>());
+            return;
+        }
+    };
+    let bytes0 = match built.to_bytes() {
+        Ok(b) => b,
+        Err(e) => {
+            cx.r.err_return = true;
+            cx.r.outcome = format!("to_bytes refused: {}", err_class(&e.to_string()).chars().take(40).collect::<String>());
+            return;
+        }
+    };
+    cx.r.nontrivial = true;
+    cx.r.count("tiles_serialised", 1);
+
+    // ---- (3) independent walker on the builder output, raw cross-checks against the input
+    let rep0 = cx.walk(&bytes0, "builder output");
+    for (id, want, what) in [(b"MTEX", &inp.textures, "MTEX"), (b"MMDX", &inp.models, "MMDX"), (b"MWMO", &inp.wmos, "MWMO")] {
+        let got = walker::raw_names(&bytes0, &rep0, id).unwrap_or_default();
+        let want: Vec<Vec<u8>> = want.iter().map(|s| s.as_bytes().to_vec()).collect();
+        if got != want {
+            cx.viol(format!("raw {what} name list differs from the builder input"), format!("{} names in file, {} given", got.len(), want.len()));
+        }
+    }
+    for (id, n, rec, what) in [(b"MDDF", inp.doodads.len(), 36, "MDDF"), (b"MODF", inp.wmo_placements.len(), 64, "MODF")] {
+        let got = walker::raw_size(&rep0, id).unwrap_or(0);
+        if got != n * rec {
+            cx.viol(format!("raw {what} size differs from record size times the number of placements given"), format!("{got} bytes for {n} placements"));
+        }
+    }
+    let want_mcnk = inp.mcnk.as_ref().map(|m| m.len()).unwrap_or(256);
+    if rep0.mcnk_count != want_mcnk {
+        cx.viol("number of MCNK chunks in the file differs from the builder input".into(), format!("{} in file, {} expected", rep0.mcnk_count, want_mcnk));
+    }
+
+    // ---- (1) parse(serialise(built)) == builder input
+    let p0 = match parse(&bytes0) {
+        Ok(p) => p,
+        Err(e) => {
+            cx.viol(
+                format!("parse_adt rejects the builder output (file ends with MCNK sub-chunk {}): {}", if rep0.last_sub.is_empty() { "-" } else { &rep0.last_sub }, err_class(&e)),
+                format!("{} bytes; error: {}", bytes0.len(), e),
+            );
+            cx.r.outcome = "built, parse failed".into();
+            return;
+        }
+    };
+    let vsame = p0.version == inp.version;
+    if !vsame {
+        cx.r.count("detected_version_differs_from_target", 1);
+    }
+    let c_in = input_content(&inp);
+    let c0 = root_content(&p0);
+    {
+        let mut c0f = c0.clone();
+        if inp.mcnk.is_none() {
+            c0f.retain(|k, _| !k.starts_with("mcnk"));
+        }
+        if inp.mtxf.is_none() {
+            // unspecified texture flags: the documented default (one zero per texture) is accepted
+            if c0f.get("texture_flags").map(|v| v.len() == 4 * inp.textures.len() && v.iter().all(|b| *b == 0)).unwrap_or(false) {
+                c0f.remove("texture_flags");
+            }
+        }
+        for (cls, d) in diff(&c_in, &c0f, "builder input", "parsed tile") {
+            cx.viol(format!("parse(serialise(built)) {cls}"), d);
+        }
+        cx.r.count("content_sections_compared", c_in.len() as u64);
+    }
+
+    // ---- (2) rounds of parse -> rebuild -> serialise on both rebuild paths
+    let mut stable_all = true;
+    for path in ["from_root_adt", "from_parsed"] {
+        let mut prev_bytes = bytes0.clone();
+        let mut prev_rep = walker::inspect(&bytes0);
+        let mut prev_root = p0.clone();
+        let mut prev_content = c0.clone();
+        for n in 1..=ROUNDS {
+            let stage = format!("{path} round {n}");
+            let rebuilt: Result<Vec<u8>, String> = if path == "from_root_adt" {
+                BuiltAdt::from_root_adt(prev_root.clone(), None).to_bytes().map_err(|e| e.to_string())
+            } else {
+                AdtBuilder::from_parsed(prev_root.clone()).build().and_then(|b| b.to_bytes()).map_err(|e| e.to_string())
+            };
+            let bytes = match rebuilt {
+                Ok(b) => b,
+                Err(_) => {
+                    cx.r.count("rebuild_refused", 1);
+                    stable_all = false;
+                    break;
+                }
+            };
+            cx.r.count("rounds_run", 1);
+            let rep = cx.walk(&bytes, &stage);
+            let mut changed = false;
+            if bytes.len() > prev_bytes.len() {
+                changed = true;
+                for (s, d) in growth_symptoms(&prev_rep, &rep) {
+                    cx.viol(s, format!("[{stage}] file {} -> {} bytes; {d}", prev_bytes.len(), bytes.len()));
+                }
+            }
+            let pn = match parse(&bytes) {
+                Ok(p) => p,
+                Err(e) => {
+                    cx.viol(
+                        format!("parse_adt rejects a re-serialised tile (file ends with MCNK sub-chunk {}): {}", if rep.last_sub.is_empty() { "-" } else { &rep.last_sub }, err_class(&e)),
+                        format!("[{stage}] {} bytes; error: {}", bytes.len(), e),
+                    );
+                    stable_all = false;
+                    break;
+                }
+            };
+            let cn = root_content(&pn);
+            for (cls, d) in diff(&prev_content, &cn, "tile before", "tile after") {
+                changed = true;
+                cx.viol(format!("re-parse after re-serialisation {cls}"), format!("[{stage}] {d}"));
+            }
+            if n >= 2 && !changed && bytes != prev_bytes {
+                let p = bytes.iter().zip(prev_bytes.iter()).position(|(a, b)| a != b).unwrap_or(bytes.len().min(prev_bytes.len()));
+                cx.viol("re-serialisation is not a fixed point although the content is equal".into(), format!("[{stage}] first differing byte at {:#x}; {} vs {} bytes", p, bytes.len(), prev_bytes.len()));
+                changed = true;
+            }
+            if changed {
+                stable_all = false;
+            }
+            if bytes.len() > MAX_FILE {
+                cx.r.count("rounds_cut_by_size_cap", 1);
+                break;
+            }
+            prev_bytes = bytes;
+            prev_rep = rep;
+            prev_root = pn;
+            prev_content = cn;
+        }
+    }
+    let nviol = cx.r.viols.len();
+    cx.r.outcome = format!(
+        "built; version {}; rounds {}; {}",
+        if vsame { "detected" } else { "misdetected" },
+        if stable_all { "stable" } else { "unstable" },
+        if nviol == 0 { "held" } else { "violated" }
+    );
+}
+
+impl Space for Main {
+    fn len(&self) -> u64 {
+        self.cases.len() as u64
+    }
+    fn describe(&self, i: u64) -> Value {
+        let c = &self.cases[i as usize];
+        let devs: Vec<Value> = c.devs.iter().map(|(s, v)| json!(format!("{}={}", SITES[*s].name, SITES[*s].vals[*v as usize]))).collect();
+        json!({"base": c.base, "deviations": devs, "spec": c.spec.json()})
+    }
+    fn run(&self, i: u64) -> CaseResult {
+        let c = &self.cases[i as usize];
+        let mut r = CaseResult::new();
+        r.key = c.spec.key();
+        run_spec(&c.spec, &mut r);
+        r
+    }
+    fn case_timeout(&self) -> u64 {
+        180
+    }
+}
+
+fn build_space(name: &str, _arg: &str, tier: Tier) -> Box<dyn Space> {
+    match name {
+        "main" => Box::new(Main::new(tier)),
+        _ => panic!("space {name}"),
+    }
+}
+
+/// `c14 --repro <name>`: tiny stand-alone reproductions of the defects found (plain API calls).
+fn repro(name: &str) {
+    use wow_adt::AdtVersion;
+    let p = |b: &[u8]| parse(b).expect("parse");
+    match name {
+        "mtxf" => {
+            // WotLK tile, nothing but one texture: MTXF is read until end of FILE, not end of chunk
+            let b0 = AdtBuilder::new().with_version(AdtVersion::WotLK).add_texture("a.blp").build().unwrap().to_bytes().unwrap();
+            let r0 = p(&b0);
+            println!("file {} bytes, 1 texture, parsed texture_flags has {} entries", b0.len(), r0.texture_flags.as_ref().map(|m| m.flags.len()).unwrap_or(0));
+            let b1 = BuiltAdt::from_root_adt(r0, None).to_bytes().unwrap();
+            let b2 = BuiltAdt::from_root_adt(p(&b1), None).to_bytes().unwrap();
+            println!("round 1: {} bytes, round 2: {} bytes", b1.len(), b2.len());
+        }
+        other => {
+            // generic: "site=value,site=value@Version[@full]"
+            let mut parts = other.split('@');
+            let devs = parts.next().unwrap_or("");
+            let ver = parts.next().unwrap_or("VanillaEarly");
+            let full = parts.next() == Some("full");
+            let vi = VERSIONS.iter().position(|v| v.0 == ver).expect("version name");
+            let mut s = if full { Spec::full(vi) } else { Spec::minimal(vi) };
+            for d in devs.split(',').filter(|d| !d.is_empty()) {
+                let (site, val) = d.split_once('=').expect("site=value");
+                let si = SITES.iter().position(|x| x.name == site).expect("site name");
+                let v = SITES[si].vals.iter().position(|x| *x == val).expect("value name");
+                s.v[si] = v as u8;
+            }
+            let s = s.canonical();
+            println!("spec: {}", s.json());
+            let mut r = CaseResult::new();
+            match guarded(|| run_spec(&s, &mut r)) {
+                Ok(()) => {}
+                Err((f, l, m)) => println!("PANIC at {f}:{l}: {m}"),
+            }
+            println!("outcome: {} (err_return={})", r.outcome, r.err_return);
+            for (k, n) in &r.counters {
+                println!("  {k} = {n}");
+            }
+            for v in &r.viols {
+                println!("VIOL {} :: {}", v.symptom, v.detail);
+            }
+        }
+    }
+}
+
+fn main() {
+    let args: Vec<String> = std::env::args().collect();
+    if args.len() >= 3 && args[1] == "--repro" {
+        install_panic_hook();
+        repro(&args[2]);
+        return;
+    }
+    let Mode::Supervisor(mut c) = start("C14", "exploration", build_space) else { return };
+    let tier = c.tier;
+    let (dmin, dfull) = tier.pick((2, 2), (3, 3));
+    c.rule = format!(
+        "builder inputs = all specs with <= {dmin} deviations from the minimal baseline and <= {dfull} from the version-adjusted full baseline over {} sites ({} site values in total) x 6 target versions (VanillaEarly..MoP), canonicalised (sites without effect reset) and de-duplicated{}; per case: build -> to_bytes -> independent walker -> parse_adt -> content comparison with the input, then {ROUNDS} rounds of parse -> rebuild -> to_bytes on two rebuild paths (BuiltAdt::from_root_adt(root, None) and AdtBuilder::from_parsed(root).build()), every produced file walked. A case is non-trivial when the builder accepted it and a file was produced; distinct by (version, site vector).",
+        NSITES,
+        SITES.iter().map(|s| s.vals.len()).sum::<usize>(),
+        if tier == Tier::Quick { "; quick: 256 populated MCNK only as a single deviation" } else { "" }
+    );
+    c.assume("content equality is judged on a canonical byte rendering of every section (floats by bit pattern); derived fields are excluded: MCNK header offsets/sizes/n_layers/n_snd_emitters, MCNR trailing padding, MH2O header/instance offsets and layer_count, MHDR/MCIN/MMID/MWID (checked by the walker instead); an empty section equals an absent one");
+    c.assume("detected version is not content: version detection from chunk presence may legitimately report an older version when no newer chunk is present (counted, not judged); content lost because of it is judged");
+    c.assume("texture flags left unspecified by the builder input may come back as one zero per texture (documented default); MCIN sizes may count the MCNK data with or without the 8 header bytes, MCNK sub-offsets may be relative to chunk start or data start, as long as one file uses one convention (docs and code disagree; the property does not fix it)");
+    c.assume("builder inputs are self-consistent where the format stores a fact twice (MCNK flags vs. MCCV/MCSH/liquid type, n_doodad_refs/n_map_obj_refs vs. reference lists, MH2O vertex grid vs. instance rectangle, exists bitmap bits within width*height); offsets/sizes/counts that the writer must derive are deliberately given stale values");
+    c.assume("walker: /verif/harness/props/c14/src/walker.rs, written from /repo/docs/src/formats/world-data/adt.md and the public ADT/v18 layout, shares no code with wow-adt");
+    c.run_space("main", "");
+    let mut axes = serde_json::Map::new();
+    for s in SITES.iter() {
+        axes.insert(s.name.into(), json!(s.vals.len()));
+    }
+    axes.insert("versions".into(), json!(VERSIONS.len()));
+    axes.insert("baselines".into(), json!(2));
+    axes.insert("rounds".into(), json!(ROUNDS));
+    axes.insert("rebuild_paths".into(), json!(2));
+    c.extra_cov.insert("axes".into(), Value::Object(axes));
+    c.extra_cov.insert("max_deviations".into(), json!({"minimal": dmin, "full": dfull}));
+    c.finish();
+}
